@@ -27,6 +27,7 @@ type c19Scenario struct {
 	PauseMax  string `json:"consumer_pause_below,omitempty"`
 	GenLatMax string `json:"delegate_latency_below,omitempty"`
 	CancelAt  string `json:"cancel_at"`
+	ByDeadline bool  `json:"scan_ends_by_deadline,omitempty"` // the scan context ends by a deadline of the caller, not by cancel()
 	CtxAware  bool   `json:"delegate_checks_context,omitempty"` // the delegate refuses to start a pass on a cancelled context (returns ctx.Err())
 }
 
@@ -153,6 +154,7 @@ func runC19Lib(t *testing.T, c simrt.Chooser, o Opts) *Out {
 			cancelAt = time.Duration(npassTarget) * interval
 		}
 	}
+	sc.ByDeadline = p.pct("bydeadline", 25)
 	sc.CancelAt = cancelAt.String()
 	out := &Out{Scenario: sc, Stats: map[string]int{}}
 
@@ -165,6 +167,11 @@ func runC19Lib(t *testing.T, c simrt.Chooser, o Opts) *Out {
 	res := simrt.Execute(t, simrt.Config{Chooser: c, Trace: o.Trace, MaxSteps: 400_000, MaxVirt: cancelAt + 100*time.Hour, MaxStepsNoTime: 60_000}, nil, func(r *simrt.Run) {
 		ctx, cancel := context.WithCancel(context.Background())
 		defer cancel()
+		if sc.ByDeadline {
+			var c2 context.CancelFunc
+			ctx, c2 = context.WithTimeout(ctx, cancelAt)
+			defer c2()
+		}
 		del = &c19Delegate{run: r, sc: sc, fail: fail, latMax: latMax}
 		live := scan.NewLiveRequestGenerator(del, interval)
 		ch, err := live.GenerateRequests(ctx, &scan.Range{})
@@ -251,7 +258,7 @@ func runC19Lib(t *testing.T, c simrt.Chooser, o Opts) *Out {
 	errReqs := 0
 	for k, rc := range recvs {
 		if rc.err != "" {
-			if rc.cancelled && rc.err == context.Canceled.Error() {
+			if rc.cancelled && (rc.err == context.Canceled.Error() || rc.err == context.DeadlineExceeded.Error()) {
 				continue // the delegate's own refusal of the pass that was due at the cancel
 			}
 			errReqs++
